@@ -27,7 +27,8 @@ from vlib.common import HarnessError, Result, RunContext, Violation, conclude, d
 RULE = ("(a) Hypothesis draws conflict-free definition closures (1-6 files, 1-3 directories; import graph shape from chain / tree / diamond / "
         "random DAG / repeated import line / same file under ./x, ../d/x spellings / import cycle / self import / the same relative spelling "
         "(x.yaml, ./x.yaml, ../lib/x.yaml, or data_logger.yaml as in the core definitions) denoting DIFFERENT files of different directories; constants, string constants, "
-        "aliases, host and module ids, structs, messages, signals, _RESERVED_ ids as ints, 'A - B', 'A-B', 'A to B'); the real parser must accept "
+        "aliases, host and module ids, structs, messages, signals, _RESERVED_ ids as ints, 'A - B', 'A-B', 'A to B', and undocumented spellings - several ranges in one quoted string, 'A-B-C', "
+        "trailing / leading text, a single id as a string, a descending range - which may be refused as a syntax error but not honoured in part); the real parser must accept "
         "them, read each file once and register exactly the union (names, values, ids) predicted by the generator's model. "
         "(b) one conflict is injected into such a closure: message id shared by message/signal/reserved in every combination or with a core "
         "message, module id, host id (each also against the core's), the same name in each of the 25 ordered pairs of the five shared "
@@ -46,7 +47,8 @@ ASSUME = [
     "two identical keys in one YAML mapping are rejected by the YAML loader first: YAMLSyntaxError is accepted for a name collision inside one section of one file",
     "nothing is claimed about what a Parser object accumulates after a SUCCESSFUL parse (tests/test_parser.py relies on accumulation); histories only continue after aborted parses",
     "duplicate module or host NAMES are outside the statement (those have their own namespaces) and are never used as the expected conflict",
-    "a reserved range longer than 100 ids or written start > end is a syntax matter, not a conflict, and is not generated",
+    "a reserved range longer than 100 ids is a syntax matter, not a conflict, and is not generated",
+    "undocumented spellings of a reservation (several ranges in one quoted string separated by comma / space / semicolon, 'a-b-c', trailing or leading text, a single id as a string, a descending range) must either be honoured in full or be refused with RTMASyntaxError; silently reserving only a part is reported",
     "the documented spelling 'A:B' of a reserved range is rejected by the parser as a syntax error whether or not anything collides (doc/code mismatch, noted, outside this property); the generator uses ints, 'A - B', 'A-B' and 'A to B'",
     "user message ids are drawn from 1000..9999, module ids from 10..99 and 201..400, host ids from 1..32766; core names and ids are avoided by construction in conflict-free programs",
 ]
@@ -74,12 +76,18 @@ def _denoted(literal: str):
         return ("<not a literal>", literal)
 
 
-ALLOW = ("alias-of-imported-struct", "alias-of-imported-struct-field", "struct-contains-message", "string-special", "prefix-names")
+ALLOW = ("alias-of-imported-struct", "alias-of-imported-struct-field", "struct-contains-message", "string-special", "prefix-names",
+         "reserved-loose")
 
 
 def check_free(p: G.Program, res: Result = None, out=None, trace=None):
     trace = trace or {"mode": "free", "program": p.to_json()}
     out = out or G.parse_program(p)
+    loose = sorted(c.split("/", 1)[1] for c in p.classes if c.startswith("reserved-loose/"))
+    if loose and out.outcome == "RTMASyntaxError":
+        if res is not None:  # an undocumented spelling of a reservation may be refused as a syntax error
+            res.count("free/reserved-loose/refused")
+        return
     if not out.ok:
         cls = out.outcome
         fam = "conflict-invented" if cls in CONFLICT_CLASSES else "crash"
@@ -100,6 +108,11 @@ def check_free(p: G.Program, res: Result = None, out=None, trace=None):
             missing = sorted(set(want) - set(got))
             extra = sorted(set(got) - set(want))
             diff = sorted(k for k in set(got) & set(want) if got[k] != want[k])
+            if loose and section in ("message_defs", "message_ids") and missing and not extra and not diff and all(m.startswith("_RESERVED_") for m in missing):
+                ents = [t for d in p.of_kind("reserved") for t, _ in d.entries if isinstance(t, str) and t.startswith('"')]
+                raise Violation("reserved-spelling/partly-honoured", f"a _RESERVED_ entry written {ents} was accepted without error but only "
+                                f"part of it was reserved: ids {[int(m[-6:]) for m in missing][:8]} are not registered (an entry is either honoured in "
+                                f"full or a syntax error)", trace)
             raise Violation(f"free/registry/{section}", f"{section}: the parser registered something else than the union of the files: "
                             f"missing {missing[:4]}, unexpected {extra[:4]}, different value {[(k, got[k], want[k]) for k in diff[:3]]}", trace)
 
@@ -145,6 +158,15 @@ def check_conflict(p: G.Program, res: Result = None, out=None, trace=None):
     out = out or G.parse_program(p)
     tag = c["kind"]
     where = f"{c['placement']}{' (swapped)' if c['swap'] else ''}, files {c['files']}, items {c['names']}"
+    if out.outcome == "RTMASyntaxError" and "RTMASyntaxError" not in c["expected"] and any(k.startswith("reserved-loose/") for k in p.classes):
+        if res is not None:  # the base closure carries an undocumented reservation spelling that may be refused: says nothing about the conflict
+            res.count("conflict/base-reservation-refused")
+        return
+    if out.ok and c.get("loose_spelling"):
+        texts = [c[k]["text"] for k in ("reserved1", "reserved2") if k in c]
+        raise Violation("reserved-spelling/partly-honoured", f"[{c['loose_spelling']}] _RESERVED_ id: [{', '.join(map(str, texts))}] and a "
+                        f"{'signal' if 'signal' in tag else 'message'} with id {c['id']} [{where}] compile without error: the entry names id {c['id']} but "
+                        f"only a part of it was reserved (an entry is either honoured in full => MessageIDError, or refused => RTMASyntaxError)", trace)
     if out.ok:
         raise Violation(f"conflict-missed/{tag}", f"conflict {tag} [{where}; {_detail(c)}] was accepted; expected {' or '.join(c['expected'])}", trace)
     if out.outcome not in c["expected"]:
@@ -310,6 +332,8 @@ def check_history(steps, res: Result = None):
             else:
                 check_free(last, None, out=out, trace=trace)
         except Violation as v:
+            if v.key.startswith("reserved-spelling/"):
+                raise
             raise Violation(f"history/after-{fk}/{'/'.join(v.key.split('/')[:2])}", f"one Parser object, earlier parses {kinds} (each aborted), then the "
                             f"{'single-conflict' if last.conflict else 'conflict-free'} closure in the same files: {v.what}", trace)
         if res is not None:
